@@ -229,8 +229,8 @@ func c03Decode(c *Ctx) {
 		r.Check(bd["$e"].String() == valT.String(), "C03.checksum-gate.same-bytes", c.ipos(e.Instr), "the bytes whose checksum is recomputed are exactly the bytes returned")
 		// decoded checksum = decoder & (2^n - 1), n = ENT/32; entropy = decoder >> n
 		nT := bd["$n"]
-		_, okX := ana.Match("obj(alloc<math/big.Int>, call<(*math/big.Int).And>(self, $dec, obj(alloc<math/big.Int>, call<(*math/big.Int).Lsh>(self, $one, conv<uint>($n)), call<(*math/big.Int).Sub>(self, self, $one))))", bd["$x"])
-		xb, _ := ana.Match("obj(alloc<math/big.Int>, call<(*math/big.Int).And>(self, $dec, obj(alloc<math/big.Int>, call<(*math/big.Int).Lsh>(self, $one, conv<uint>($n)), call<(*math/big.Int).Sub>(self, self, $one))))", bd["$x"])
+		_, okX := ana.MatchX(c.P, "obj(alloc<math/big.Int>, call<(*math/big.Int).And>(self, $dec, obj(alloc<math/big.Int>, call<(*math/big.Int).Lsh>(self, $one, conv<uint>($n)), call<(*math/big.Int).Sub>(self, self, $one))))", bd["$x"])
+		xb, _ := ana.MatchX(c.P, "obj(alloc<math/big.Int>, call<(*math/big.Int).And>(self, $dec, obj(alloc<math/big.Int>, call<(*math/big.Int).Lsh>(self, $one, conv<uint>($n)), call<(*math/big.Int).Sub>(self, self, $one))))", bd["$x"])
 		r.Check(okX && xb["$n"].String() == nT.String(), "C03.checksum-gate.mask", c.ipos(e.Instr), "decoded checksum = decoder AND (1<<n - 1) with the same n as the recomputation")
 		if okX {
 			one, w, _ := c.globalInit("pkg/bip39", "bigOne")
@@ -256,10 +256,10 @@ func c03Decode(c *Ctx) {
 			}
 		}
 		// decoder history: per word Lsh 11 then Or index, words in order
-		dec, _ := ana.Find("obj(call<math/big.NewInt>(0), maybe(call<(*math/big.Int).Lsh>(self, self, 11)), maybe(call<(*math/big.Int).Or>(self, self, call<math/big.NewInt>(conv<int64>(call<(repo/pkg/bip39/wordlist.List).Index>(load(global<repo/pkg/bip39.wordList>), load(iaddr(p0, bin<+>(ind<+1>(-1), 1)))))))), ...)", valT)
+		dec, _ := ana.FindX(c.P, "obj(call<math/big.NewInt>(0), maybe(call<(*math/big.Int).Lsh>(self, self, 11)), maybe(call<(*math/big.Int).Or>(self, self, call<math/big.NewInt>(conv<int64>(call<(repo/pkg/bip39/wordlist.List).Index>(load(global<repo/pkg/bip39.wordList>), load(iaddr(p0, bin<+>(ind<+1>(-1), 1)))))))), ...)", valT)
 		r.Check(dec != nil, "C03.bit-layout.decode-loop", c.ipos(e.Instr), "decoder = for each word first→last: decoder<<11 | Index(word), starting from 0")
 		// entropy bytes = padded (decoder >> n).Bytes()
-		pb, okP := ana.Match("call<*>(call<(*math/big.Int).Bytes>(obj(call<math/big.NewInt>(0), maybe(_), maybe(_), call<(*math/big.Int).Rsh>(self, self, conv<uint>($n)))), bin</>($bits, 8))", valT)
+		pb, okP := ana.MatchX(c.P, "call<*>(call<(*math/big.Int).Bytes>(obj(call<math/big.NewInt>(0), maybe(_), maybe(_), call<(*math/big.Int).Rsh>(self, self, conv<uint>($n)))), alt(bin</>($bits, 8), bin<>>>($bits, 3)))", valT)
 		r.Check(okP && pb["$n"].String() == nT.String(), "C03.checksum-gate.entropy-split", c.ipos(e.Instr), "entropy = pad((decoder >> n).Bytes(), ENT/8)")
 	}
 	r.Floor("C03.floor.decode-success", okRet, 1, "success returns of MnemonicToEntropy")
@@ -329,7 +329,14 @@ func c03FixedWidth(c *Ctx) {
 			}
 		}
 	}
-	r.Floor("C03.floor.fixed-width", n, 3, "(*big.Int).Bytes() call sites in pkg/")
+	// FillBytes writes the fixed width itself; such sites are instances of the rule that hold by construction
+	for _, fn := range c.P.RepoFuncs("pkg") {
+		for _, ci := range ana.CallsTo(fn, "(*math/big.Int).FillBytes") {
+			n++
+			r.OK("C03.fixed-width."+ana.ShortFunc(fn), c.ipos(ci), "FillBytes(buf) left-pads to len(buf) (and panics if the value does not fit)")
+		}
+	}
+	r.Floor("C03.floor.fixed-width", n, 3, "(*big.Int).Bytes() / FillBytes call sites in pkg/")
 }
 
 func retTerm(c *Ctx, fn *ssa.Function) string {
@@ -357,7 +364,8 @@ func isLeftPad(c *Ctx, fn *ssa.Function, pi int) bool {
 		t := b.Of(e.Results[0], e.Instr)
 		if _, m := ana.MatchAny(t,
 			"call<builtin.append>(makeslice<[]byte>(bin<->($size, len("+p+")), _), "+p+")",
-			"call<builtin.append>(slice(alloc<*>, 0, bin<->($size, len("+p+"))), "+p+")"); m {
+			"call<builtin.append>(slice(alloc<*>, 0, bin<->($size, len("+p+"))), "+p+")",
+			"obj(makeslice<[]byte>($size, $size), call<builtin.copy>(slice(self, bin<->($size, len("+p+")), none), "+p+"))"); m {
 			ok = true
 			continue
 		}
@@ -428,7 +436,7 @@ func c03Encode(c *Ctx) {
 				r.Viol("C03.bit-layout.bits-to-word-count", c.ipos(st), "word slice is not make(Mnemonic, f(len(entropy)*8)): %s", short(words.String(), 200))
 			}
 			vt := b.Of(st.Val, st)
-			pat := "call<(repo/pkg/bip39/wordlist.List).Word>(load(global<repo/pkg/bip39.wordList>), conv<int>(call<(*math/big.Int).Int64>(obj(call<math/big.NewInt>(0), call<(*math/big.Int).And>(self, $E, load(global<repo/pkg/bip39.wordIndexMask>)), ...))))"
+			pat := "call<(repo/pkg/bip39/wordlist.List).Word>(load(global<repo/pkg/bip39.wordList>), conv<int>(call<(*math/big.Int).Int64|(*math/big.Int).Uint64>(obj(call<math/big.NewInt>(0), call<(*math/big.Int).And>(self, $E, load(global<repo/pkg/bip39.wordIndexMask>)), ...))))"
 			vb, okV := ana.Match(pat, vt)
 			if !okV {
 				r.Viol("C03.bit-layout.encode-word", c.ipos(st), "stored word is not wordList.Word(int(bigEntropy & mask)): %s", short(vt.String(), 300))
